@@ -372,8 +372,26 @@ func (f *file) Stat() (hackpadfs.FileInfo, error) {
 		return nil, err
 	}
 	_ = f.currentSize() // report the current size, not the one recorded at open
-	return fileInfo{Record: &f.runOnceFileRecord, Path: f.path}, nil
+	live := fileInfo{Record: &f.runOnceFileRecord, Path: f.path}
+	// like an os.FileInfo, the result describes the file as it is now and keeps doing so: later writes through this handle do not show in it
+	return infoSnapshot{name: live.Name(), size: live.Size(), mode: live.Mode(), modTime: live.ModTime(), sys: live.Sys()}, nil
 }
+
+// infoSnapshot is a FileInfo taken at one moment.
+type infoSnapshot struct {
+	name    string
+	size    int64
+	mode    hackpadfs.FileMode
+	modTime time.Time
+	sys     interface{}
+}
+
+func (i infoSnapshot) Name() string             { return i.name }
+func (i infoSnapshot) Size() int64              { return i.size }
+func (i infoSnapshot) Mode() hackpadfs.FileMode { return i.mode }
+func (i infoSnapshot) ModTime() time.Time       { return i.modTime }
+func (i infoSnapshot) IsDir() bool              { return i.mode.IsDir() }
+func (i infoSnapshot) Sys() interface{}         { return i.sys }
 
 func (f *file) Truncate(size int64) error {
 	if err := f.checkClosed("truncate"); err != nil {
